@@ -73,6 +73,13 @@ pub fn verify_fri_proof<
 ) -> Result<()> {
     validate_fri_proof_shape::<F, C, D>(proof, instance, params)?;
 
+    // One initial Merkle cap per oracle: the per-query checks zip the opened leaves with the caps,
+    // so a missing cap would leave an oracle's leaves unauthenticated.
+    ensure!(
+        initial_merkle_caps.len() == instance.oracles.len(),
+        "Number of initial Merkle caps does not match the number of oracles."
+    );
+
     // Size of the LDE domain.
     let n = params.lde_size();
 
